@@ -338,7 +338,7 @@ func (g *Graph) usesFlags() bool {
 					// copy of another local somewhere (the shape inlined
 					// "return nil, err" / "if err != nil" takes) is followed
 					// as nil / non-nil
-					if nilable(obj) && g.assignedNilOrCopy(obj) {
+					if nilable(obj) && (g.assignedNilOrCopy(obj) || g.retestedWithoutDef(obj, bv)) {
 						g.flags = true
 						if g.flagVars == nil {
 							g.flagVars = map[types.Object]bool{}
@@ -353,6 +353,48 @@ func (g *Graph) usesFlags() bool {
 		}
 	})
 	return g.flags
+}
+
+// retestedWithoutDef: after the nil test of obj at bv, another nil test of
+// obj can be reached without passing an assignment to obj (the chained form
+// "if err == nil { err = step2() }; if err == nil { err = step3() }; if err
+// != nil { return err }"): the outcomes of the two tests are correlated, which
+// only a path-sensitive exploration sees.
+func (g *Graph) retestedWithoutDef(obj types.Object, bv *V) bool {
+	var defs []*V
+	for _, v := range g.Vs {
+		if v.AST == nil {
+			continue
+		}
+		switch x := v.AST.(type) {
+		case *ast.AssignStmt:
+			for _, l := range x.Lhs {
+				if id, ok := ast.Unparen(l).(*ast.Ident); ok && g.Info.ObjectOf(id) == obj {
+					defs = append(defs, v)
+				}
+			}
+		case *ast.ValueSpec:
+			for _, n := range x.Names {
+				if g.Info.ObjectOf(n) == obj {
+					defs = append(defs, v)
+				}
+			}
+		}
+	}
+	reach := g.reachPlain(bv, false, AvoidVs(defs...))
+	for _, other := range g.BranchVertices() {
+		if other == bv || !reach[other] {
+			continue
+		}
+		for _, l := range []EdgeLabel{EdgeTrue, EdgeFalse} {
+			for _, a := range other.Implied(l) {
+				if o2, k, _, ok := g.flagTest(a); ok && o2 == obj && k == 0 {
+					return true
+				}
+			}
+		}
+	}
+	return false
 }
 
 func (g *Graph) reachPlain(from *V, startAt bool, avoid *Avoid) map[*V]bool {
@@ -479,6 +521,11 @@ func (v *V) Implied(label EdgeLabel) []Atom {
 	if c.Tag != nil {
 		return []Atom{{Expr: c.Expr, Tag: c.Tag, Neg: label == EdgeFalse}}
 	}
+	return ImpliedBy(c.Expr, label == EdgeTrue)
+}
+
+// ImpliedBy returns the atomic facts that follow from "e evaluates to truth".
+func ImpliedBy(cond ast.Expr, truthOfCond bool) []Atom {
 	var out []Atom
 	var walk func(e ast.Expr, truth bool)
 	walk = func(e ast.Expr, truth bool) {
@@ -508,7 +555,7 @@ func (v *V) Implied(label EdgeLabel) []Atom {
 		}
 		out = append(out, Atom{Expr: e, Neg: !truth})
 	}
-	walk(c.Expr, label == EdgeTrue)
+	walk(cond, truthOfCond)
 	return out
 }
 
@@ -560,6 +607,15 @@ func (g *Graph) guardedBy(site *V, pred func(a Atom) bool, depth int) bool {
 				if !ok {
 					continue
 				}
+				// a boolean local that names a condition (implicit := w0 == 0):
+				// the facts of that condition hold where the local is tested
+				if e, truth, isNamed := g.namedCondition(obj, k, eq); isNamed {
+					for _, a2 := range ImpliedBy(e, truth) {
+						if pred(a2) {
+							return true
+						}
+					}
+				}
 				defs := g.constDefs(obj)
 				if defs == nil && k == 0 && nilable(obj) {
 					defs = g.nilDefs(obj)
@@ -594,6 +650,84 @@ func (g *Graph) guardedBy(site *V, pred func(a Atom) bool, depth int) bool {
 		}
 	}
 	return false
+}
+
+// namedCondition: obj is a boolean local with exactly one definition, whose
+// right-hand side is a (non-constant) boolean expression over variables that
+// are themselves assigned only once; the test "obj == k" (eq) then means the
+// expression has the returned truth value.
+func (g *Graph) namedCondition(obj types.Object, k int64, eq bool) (ast.Expr, bool, bool) {
+	b, ok := obj.Type().Underlying().(*types.Basic)
+	if !ok || b.Kind() != types.Bool {
+		return nil, false, false
+	}
+	var rhs ast.Expr
+	n := 0
+	count := func(o types.Object) int {
+		c := 0
+		for _, v := range g.Vs {
+			switch x := v.AST.(type) {
+			case *ast.AssignStmt:
+				for _, l := range x.Lhs {
+					if id, ok := ast.Unparen(l).(*ast.Ident); ok && g.Info.ObjectOf(id) == o {
+						c++
+					}
+				}
+			case *ast.IncDecStmt:
+				if id, ok := ast.Unparen(x.X).(*ast.Ident); ok && g.Info.ObjectOf(id) == o {
+					c++
+				}
+			case *ast.ValueSpec:
+				for _, nm := range x.Names {
+					if g.Info.ObjectOf(nm) == o {
+						c++
+					}
+				}
+			}
+		}
+		return c
+	}
+	for _, v := range g.Vs {
+		as, ok := v.AST.(*ast.AssignStmt)
+		if !ok || len(as.Lhs) != len(as.Rhs) {
+			continue
+		}
+		for i, l := range as.Lhs {
+			if id, ok := ast.Unparen(l).(*ast.Ident); ok && g.Info.ObjectOf(id) == obj {
+				rhs = as.Rhs[i]
+				n++
+			}
+		}
+	}
+	if n != 1 || rhs == nil || count(obj) != 1 {
+		return nil, false, false
+	}
+	if tv, ok := g.Info.Types[rhs]; ok && tv.Value != nil {
+		return nil, false, false
+	}
+	stable := true
+	ast.Inspect(rhs, func(m ast.Node) bool {
+		switch x := m.(type) {
+		case *ast.CallExpr:
+			if tv, ok := g.Info.Types[x.Fun]; !(ok && tv.IsType()) {
+				if id, isID := ast.Unparen(x.Fun).(*ast.Ident); !isID || g.Info.Uses[id] == nil || g.Info.Uses[id].Pkg() != nil {
+					stable = false // a call: its value is not a fact about variables
+				}
+			}
+		case *ast.Ident:
+			if v, ok := g.Info.ObjectOf(x).(*types.Var); ok && !v.IsField() && v.Pkg() != nil && v.Parent() != v.Pkg().Scope() {
+				if count(v) > 1 {
+					stable = false
+				}
+			}
+		}
+		return stable
+	})
+	if !stable {
+		return nil, false, false
+	}
+	truth := (k != 0) == eq
+	return rhs, truth, true
 }
 
 type constDef struct {
